@@ -191,11 +191,19 @@ def desc_cases(draw):
         # such a file can be read but not written again (no item 'STRT'), i.e. it is outside the property's domain
         if row[0].upper() in ("STRT", "STOP", "STEP", "NULL", "VERS", "WRAP", "DLM"):
             row[0] = row[0] + "X"
+    twice = False
+    if draw(st.integers(0, 7)) == 0:
+        # a file that states WRAP twice: the section must not grow by one WRAP line per cycle
+        desc["version"] = list(desc.get("version", [])) + [["WRAP", "", ["s", "NO"], "stated again"]]
+        twice = True
     if draw(st.integers(0, 5)) == 0 and not any(x == "nan" for cv in desc["curves"] for x in cv[4]):
         # a second NULL line (exact spelling) is writable as long as no sample needs the marker: in the 1.2 layout the
         # duplicate must be laid out like the first one
         desc["well"].append(["NULL", "", ["s", draw(st.sampled_from(["-999.25", "-9999", "none"]))], "second null line"])
-    return {"src": {"desc": desc}, "opts": draw(inputs.WRITER_OPTS), "cycles": draw(st.integers(2, 4)),
+    opts = dict(draw(inputs.WRITER_OPTS))
+    if twice:
+        opts["wrap"] = opts.get("wrap", False)  # (left to lasio, such an object cannot be written at all)
+    return {"src": {"desc": desc}, "opts": opts, "cycles": draw(st.integers(2, 4)),
             "read_kw": draw(st.sampled_from([{}, {"mnemonic_case": "preserve"}, {"mnemonic_case": "lower"}]))}
 
 
